@@ -54,13 +54,14 @@ CHECKS["C05"] = (TV, "translation validation: symbolic execution (SSA->SMT, z3) 
 CHECKS["C03"] = (TV, "translation validation: symbolic execution (SSA->SMT, z3) on a declaration/shadowing/closure-biased corpus with one distinct symbolic term per declaration",
     "Corpus biased to declarations: x,y declared, shadowed and updated at function level, in blocks, if/else arms, for/switch/type-switch initialisers, range variables and case "
     "clauses, with reader/writer closures created before yields and called after. Every declaration is initialised from a distinct symbolic term, so a reference bound to the "
-    "wrong variable changes the yielded term and the solver returns a distinguishing input. Two-world log equality as in C01. Program dimension sampled.", "§6 C03")
+    "wrong variable changes the yielded term and the solver returns a distinguishing input. Two-world log equality as in C01. Loop-variable identity (closures escaping an "
+    "iteration) is decided in two workspaces, go 1.20 and go 1.22 sources; known findings F7/F8 are reported there. Program dimension sampled.", "§6 C03")
 
 CHECKS["C04"] = (TV, "translation validation: symbolic execution (SSA->SMT, z3) of range loops inside generators against go/ssa's lowering of the native range statement",
     "Directed-combinatorial corpus: {string with fully symbolic bytes, slice (3 / empty / nil), array by value, map, nil map, buffered closed channel} x {k,v := / k := / _,v := / "
     "no variables / k,v = outer variables} x {yielding, non-yielding, continue, break, mutation of the collection before/after the yield, nested range, range inside a "
     "non-generator closure}. Reference = the source's native range as lowered by go/ssa under coroutine semantics; implementation = generated loop over seq.New*Iter; the solver "
-    "decides log equality for all element values / bytes. Integer range is outside (needs go >= 1.22 sources); sizes <= 3.", "§6 C04")
+    "decides log equality for all element values / bytes. Integer range runs in a second workspace with go 1.22 sources; sizes <= 3.", "§6 C04")
 
 CHECKS["C06"] = (TV, "translation validation: symbolic execution (SSA->SMT, z3) of consumer functions over generators, generator-side effects make over-pulling visible",
     "Corpus of consumer functions: range over an iterator with break/continue/return at guard-controlled points, := and = forms, nested ranges, pull code and range code on the "
@@ -78,7 +79,8 @@ CHECKS["C13"] = (TV, "translation validation: symbolic execution (SSA->SMT, z3) 
     "Files that contain a generator (so they are processed) and bystander declarations - plain functions, value/pointer methods, generic functions, constants, package-level "
     "variables with initialisers, closures of every eta shape named in the property with later mutation of callee/receiver, capture by reference, defer/recover, native range - are "
     "compiled; drivers call the bystanders with symbolic arguments in both packages and the solver decides equality of the results for all 64-bit inputs. A generated file that "
-    "does not type-check (the source does) is a front-end refutation. Shapes are hand-listed, not enumerated.", "§6 C13")
+    "does not type-check (the source does) is a front-end refutation. A second run uses go 1.22 sources (per-iteration loop variables in plain functions and in ordinary closures "
+    "nested in generators). Shapes are hand-listed, not enumerated.", "§6 C13")
 
 CHECKS["C12"] = (TV, "compiler run concretely (reject / unbuildable are allowed outcomes), then translation validation by symbolic execution (SSA->SMT, z3) of accepted programs",
     "Supported host programs with one unsupported construct injected at a random statement position (goto, labels, labelled break/continue, select, defer, fallthrough, range over "
